@@ -6,6 +6,7 @@ import (
 	"io"
 
 	"github.com/hack-pad/hackpadfs"
+	"github.com/hack-pad/hackpadfs/keyvalue/blob"
 )
 
 // handlediff: the same handle operations on the SUT and on os.File through os.FS (C02, C17).
@@ -28,7 +29,17 @@ type hOp struct {
 	Whence int
 	Data   []byte
 	Perm   hackpadfs.FileMode
+	// Blob: Read/ReadAt/Write/WriteAt go through the blob package's helpers (blob.Read, ...), the second entry point
+	// into the same file: a handle that implements ReadBlob/ReadBlobAt/WriteBlob/WriteBlobAt is asked that way, any
+	// other through the helpers' fallbacks. Only the system under test is called like this, the reference plainly.
+	// 2: the handle is shown to the helper as a bare io.Reader/ReaderAt/Writer/WriterAt, so that the fallback runs
+	Blob int
 }
+
+type onlyReader struct{ io.Reader }
+type onlyReaderAt struct{ io.ReaderAt }
+type onlyWriter struct{ io.Writer }
+type onlyWriterAt struct{ io.WriterAt }
 
 func (o hOp) String() string {
 	switch o.Kind {
@@ -68,12 +79,35 @@ func accName(flag int) string {
 func callHandle(f hackpadfs.File, o hOp) (r hResult) {
 	switch o.Kind {
 	case "Read":
+		if o.Blob != 0 {
+			var b blob.Blob
+			var src io.Reader = f
+			if o.Blob == 2 {
+				src = onlyReader{f}
+			}
+			b, r.n, r.err = blob.Read(src, o.N)
+			if b != nil && r.n >= 0 && r.n <= b.Len() {
+				r.data = append([]byte(nil), b.Bytes()[:r.n]...)
+			}
+			break
+		}
 		buf := make([]byte, o.N)
 		r.n, r.err = f.Read(buf)
 		if r.n >= 0 && r.n <= len(buf) {
 			r.data = buf[:r.n]
 		}
 	case "ReadAt":
+		if ra, ok := f.(io.ReaderAt); ok && o.Blob != 0 {
+			var b blob.Blob
+			if o.Blob == 2 {
+				ra = onlyReaderAt{ra}
+			}
+			b, r.n, r.err = blob.ReadAt(ra, o.N, o.Off)
+			if b != nil && r.n >= 0 && r.n <= b.Len() {
+				r.data = append([]byte(nil), b.Bytes()[:r.n]...)
+			}
+			break
+		}
 		buf := make([]byte, o.N)
 		r.n, r.err = hackpadfs.ReadAtFile(f, buf, o.Off)
 		if r.n >= 0 && r.n <= len(buf) {
@@ -84,11 +118,25 @@ func callHandle(f hackpadfs.File, o hOp) (r hResult) {
 		if o.Data == nil {
 			buf = nil
 		}
-		r.n, r.err = hackpadfs.WriteFile(f, buf)
+		if wr, ok := f.(io.Writer); ok && o.Blob != 0 {
+			if o.Blob == 2 {
+				wr = onlyWriter{wr}
+			}
+			r.n, r.err = blob.Write(wr, blob.NewBytes(buf))
+		} else {
+			r.n, r.err = hackpadfs.WriteFile(f, buf)
+		}
 		scribble(buf)
 	case "WriteAt":
 		buf := append([]byte(nil), o.Data...)
-		r.n, r.err = hackpadfs.WriteAtFile(f, buf, o.Off)
+		if wa, ok := f.(io.WriterAt); ok && o.Blob != 0 {
+			if o.Blob == 2 {
+				wa = onlyWriterAt{wa}
+			}
+			r.n, r.err = blob.WriteAt(wa, blob.NewBytes(buf), o.Off)
+		} else {
+			r.n, r.err = hackpadfs.WriteAtFile(f, buf, o.Off)
+		}
 		scribble(buf)
 	case "Seek":
 		r.off, r.err = hackpadfs.SeekFile(f, o.Off, o.Whence)
@@ -199,8 +247,13 @@ func (w *handleWorld) do(o hOp) {
 	if info, err := hackpadfs.Stat(w.ref, h.path); err == nil && !info.IsDir() {
 		refSize = info.Size()
 	}
-	want := callHandle(h.ref, o)
+	plain := o
+	plain.Blob = 0
+	want := callHandle(h.ref, plain)
 	got := callHandle(h.sut, o)
+	if o.Blob != 0 {
+		t.Stat("c02:through-blob-helpers")
+	}
 	t.Logf("%d %s [%s] -> sut n=%d off=%d %s %s | os n=%d off=%d %s %s", w.step, o, flagString(h.flag), got.n, got.off, errClass(got.err), got.info, want.n, want.off, errClass(want.err), want.info)
 	sig := fmt.Sprintf("%s:%s[%s%s]", w.prop, o.Kind, accName(h.flag), map[bool]string{true: "|APPEND", false: ""}[h.flag&hackpadfs.FlagAppend != 0])
 	if h.isDir {
@@ -337,6 +390,9 @@ var hLens = []int{4, 0, 1, 7, 16, 100, 700}
 func genHandleOp(t *T, nh int, size int64, step int, kinds []string, weights []int) hOp {
 	c := t.C
 	o := hOp{Kind: kinds[c.Weighted(weights...)], H: c.Draw(nh)}
+	if c.Chance(1, 6) {
+		o.Blob = 1 + c.Draw(2)
+	}
 	off := func() int64 {
 		switch c.Weighted(3, 2, 1, 1) {
 		case 0:
